@@ -451,6 +451,8 @@ package plenccodec
 //@   loop 1 step[C03,C01] called_Codec_Read && !called_ReadVarUint ==> len(call_Codec_Read_arg1) == l - head_offset - call_ReadTag_r2
 //@   # an index without a codec is skipped, never decoded
 //@   loop 1 step[C03] called_Skip ==> !called_Codec_Read && (call_ReadTag_r1 >= len(c.fieldsByIndex) || c.fieldsByIndex[call_ReadTag_r1].codec == nil)
+//@   # success is reported only when every field of the data has been handled (the loop ran to the end of the data)
+//@   ensures[C03,C01] err == nil ==> loopdone_1
 
 //@ func plenccodec.*MapCodec.Read
 //@   safety C04 C11
@@ -575,6 +577,11 @@ package plenccodec
 //@   loop 2 invariant[C04] 0 <= rangeindex + 1
 //@   loop 2 decreases len(d.Elements) - rangeindex
 //@   ensures[C04] err == nil ==> 0 <= n && n <= len(data)
+//@   # a field whose index the descriptor knows is never skipped: the search looks at every element
+//@   loop 2 invariant[C13,C03] forall k int :: 0 <= k && k <= rangeindex ==> d.Elements[k].Index != index
+//@   loop 1 step[C13,C03] called_Skip ==> (forall k int :: 0 <= k && k < len(d.Elements) ==> d.Elements[k].Index != call_ReadTag_r1)
+//@   # success is reported only when every field of the data has been walked (the loop ran to the end of the data)
+//@   ensures[C13,C03] err == nil ==> loopdone_1
 
 //@ func plenccodec.*Descriptor.readAsMapEntry
 //@   safety C04 C13
